@@ -735,7 +735,7 @@ impl Property for C05 {
     fn phases(&self, tier: Tier) -> Vec<Phase<C05Case>> {
         vec![
             Phase::Enumerate { name: "assets", total: 6, exhaustive: false, gen: Arc::new(|i| Some(C05Case::Asset(i as u8))) },
-            Phase::Random { name: "typed-headers", cases: tier.pick(30_000, 2_000_000), strat: Arc::new(model_strategy) },
+            Phase::Random { name: "typed-headers", cases: tier.pick(60_000, 2_000_000), strat: Arc::new(model_strategy) },
         ]
     }
     fn check(&self, case: &C05Case) -> Outcome {
@@ -816,7 +816,10 @@ impl Property for C05 {
                 }
             };
             o.key = Some(fnv1a(&bytes));
-            let p = match panics::catch(|| rpm::PackageMetadata::parse(&mut &bytes[..])) {
+            // what the accessors return must not depend on how the bytes arrive
+            let sel = fnv1a(&bytes) >> 7;
+            o.label(if sel % 6 == 0 { "source-slice" } else { "source-chunked-bufreader" });
+            let p = match panics::catch(|| super::common::with_source(&bytes, sel, |mut r| rpm::PackageMetadata::parse(&mut r))) {
                 Ok(Ok(p)) => p,
                 Ok(Err(e)) => return Err(("well-formed-rejected".into(), format!("a well-formed header is rejected: {e}"))),
                 Err(_) => {
